@@ -64,7 +64,11 @@ def opBnAssemble (j : Json) : D Json := do
     let topo := match topoOrder net with
       | some o => jsonNats o
       | none => Json.null
+    let topoValid := match topoOrder net with
+      | some o => isTopo net o
+      | none => false
     pure (okJson [("accepted", Json.bool true), ("net", jsonNet net), ("topo", topo),
+                  ("topo_valid", Json.bool topoValid), ("wf", Json.bool (Net.wf net)),
                   ("names", Json.arr (net.map (fun v => Json.str (sanitize v.name))).toArray)])
 
 /-- `bn_cpt`: one CPT from its pieces (conditions as value indices) -/
